@@ -23,11 +23,16 @@ Proof.
   rewrite !andb_true_iff, !str_eqb_eq. split; [intros [[-> ->] ->]; reflexivity | intros E; injection E; auto].
 Qed.
 
-Lemma sgraph_eqb_eq : forall a b : sgraph, sgraph_eqb a b = true <-> a = b.
+Lemma statics_sub_In : forall G G' g k,
+  statics_sub G G' = true -> In g G -> In k (snd g) ->
+  exists g', In g' G' /\ fst g' = fst g /\ In k (snd g').
 Proof.
-  intros [a1 a2] [b1 b2]. unfold sgraph_eqb. cbn [fst snd].
-  rewrite andb_true_iff, str_eqb_eq, (list_eqb_eq _ key_eqb key_eqb_eq).
-  split; [intros [-> ->]; reflexivity | intros E; injection E; auto].
+  intros G G' g k H Hg Hk. unfold statics_sub in H. rewrite forallb_forall in H. specialize (H g Hg).
+  apply existsb_exists in H. destruct H as (g' & Hg' & Hs). unfold sgraph_sub in Hs.
+  apply andb_true_iff in Hs. destruct Hs as [Hi Hall]. apply str_eqb_eq in Hi.
+  rewrite forallb_forall in Hall. specialize (Hall k Hk). apply existsb_exists in Hall.
+  destruct Hall as (k' & Hk' & E). apply key_eqb_eq in E. subst k'.
+  exists g'. auto.
 Qed.
 
 Lemma forall2b_In : forall (A B : Type) (p : A -> B -> bool) l l',
@@ -88,13 +93,6 @@ Proof.
   apply translate_In in H. destruct H as [(w & wt & _ & _ & _ & Hlt & _) | (g & t & _ & _ & -> & _)]; [exact Hlt | exact Hnow].
 Qed.
 
-Lemma functional_b_spec : forall l, functional_b l = true -> functional_base l.
-Proof.
-  intros l H f e e' H1 H2. unfold functional_b in H. rewrite forallb_forall in H.
-  specialize (H _ H1). rewrite forallb_forall in H. specialize (H _ H2). cbn [fst snd] in H.
-  rewrite triple_eqb_refl in H. cbn in H. apply N.eqb_eq in H. exact H.
-Qed.
-
 Lemma consistent_translate : forall S S' now now',
   window_consistent S S' now' = true -> base_consistent (translate S now) (translate S' now') now'.
 Proof.
@@ -114,21 +112,9 @@ Proof.
     split; [|exact Hle]. apply translate_In. left. exists w', wt'.
     split; [exact Hw'|]. split; [exact Hwt'|]. split; [reflexivity|]. split; [lia|].
     unfold wfact, wkey in *. rewrite Hiri. destruct wt as [k1 t1], wt' as [k2 t2]. cbn [fst snd] in *. subst k2. reflexivity.
-  - exists INF. split; [|lia]. apply translate_In. right. exists g, t.
-    apply (list_eqb_eq _ sgraph_eqb sgraph_eqb_eq) in Hs. rewrite <- Hs. auto.
-Qed.
-
-Lemma static_translate : forall S S' now now',
-  window_consistent S S' now' = true -> no_overflow S' = true ->
-  static_stable (translate S now) (translate S' now').
-Proof.
-  intros S S' now now' H Hno f Hin. unfold window_consistent in H.
-  rewrite !andb_true_iff in H. destruct H as [[_ Hs] _].
-  apply (list_eqb_eq _ sgraph_eqb sgraph_eqb_eq) in Hs.
-  apply translate_In in Hin. destruct Hin as [(w & wt & Hw & Hwt & He & _ & _) | (g & t & Hg & Ht & _ & ->)].
-  - exfalso. unfold no_overflow in Hno. rewrite forallb_forall in Hno. specialize (Hno w Hw).
-    rewrite forallb_forall in Hno. specialize (Hno wt Hwt). apply N.ltb_lt in Hno. unfold sat_add in He. lia.
-  - apply translate_In. right. exists g, t. rewrite Hs. auto.
+  - exists INF. split; [|lia]. apply translate_In. right.
+    destruct (statics_sub_In _ _ g t Hs Hg Ht) as (g' & Hg' & Hi & Ht').
+    exists g', t. rewrite Hi. auto.
 Qed.
 
 (* ---- from-scratch evaluation without tags (the model of naive_sds_plus) -------------------------------- *)
@@ -211,17 +197,14 @@ Proof.
     destruct (incremental fuel P S' old now') as [st|] eqn:Einc; [|discriminate].
     destruct (run_history fuel P st rest) as [l|] eqn:Erest; [|discriminate]. injection Hrun as <-.
     rewrite !andb_true_iff in Hok. destruct Hok as [[[Hsok Hrt'] Hcons] Hrest].
-    unfold sds_ok in Hsok. rewrite !andb_true_iff in Hsok. destruct Hsok as [[Hnow Hno] Hfun].
-    apply N.ltb_lt in Hnow. apply functional_b_spec in Hfun.
+    unfold sds_ok in Hsok. rename Hsok into Hnow. apply N.ltb_lt in Hnow.
     assert (E_state P (translate S' now') (route S') now' st) as HE.
     { unfold incremental in Einc. destruct prev as [[S0 now]|].
       - destruct Hprev as [HE0 Hrt0]. apply andb_true_iff in Hcons. destruct Hcons as [Hlt Hwc]. apply N.ltb_lt in Hlt.
         eapply (step_base fuel P (route S0) (route S') (translate S0 now) (translate S' now') old now now' st); try eassumption.
         + lia.
-        + intros f e Hin. eapply translate_cap. exact Hin.
         + apply translate_alive. exact Hnow.
         + apply consistent_translate. exact Hwc.
-        + apply static_translate; assumption.
       - subst old. eapply first_base; try eassumption. apply translate_alive. exact Hnow. }
     constructor; [exact HE|].
     apply (IH (Some (S', now')) st l Hwf Hrest); [|exact Erest]. split; [exact HE | exact Hrt'].
